@@ -415,10 +415,13 @@ func inferSchema(typ reflect.Type, level int) schema.Type {
 	ts.Accumulate(schema.SpawnBytes("Bytes"))
 	ts.Accumulate(schema.SpawnLink("Link"))
 	ts.Accumulate(schema.SpawnAny("Any"))
-	return inferSchemaInto(ts, typ, level)
+	return inferSchemaInto(ts, map[reflect.Type]schema.Type{}, typ, level)
 }
 
-func inferSchemaInto(ts *schema.TypeSystem, typ reflect.Type, level int) schema.Type {
+// inferSchemaInto adds the schema type inferred for typ to ts.
+// A Go type that is mentioned more than once (two fields of the same struct or slice type)
+// is inferred once: done remembers what was already inferred during this call.
+func inferSchemaInto(ts *schema.TypeSystem, done map[reflect.Type]schema.Type, typ reflect.Type, level int) schema.Type {
 	if level > maxRecursionLevel {
 		panic(fmt.Sprintf("inferSchema: refusing to recurse past %d levels", maxRecursionLevel))
 	}
@@ -437,12 +440,15 @@ func inferSchemaInto(ts *schema.TypeSystem, typ reflect.Type, level int) schema.
 		if typ == goTypeCid || typ == goTypeCidLink {
 			return ts.TypeByName("Link")
 		}
+		if typSchema, ok := done[typ]; ok {
+			return typSchema
+		}
 
 		fieldsSchema := make([]schema.StructField, typ.NumField())
 		for i := range fieldsSchema {
 			field := typ.Field(i)
 			ftyp := field.Type
-			ftypSchema := inferSchemaInto(ts, ftyp, level+1)
+			ftypSchema := inferSchemaInto(ts, done, ftyp, level+1)
 			fieldsSchema[i] = schema.SpawnStructField(
 				field.Name, // TODO: allow configuring the name with tags
 				ftypSchema.Name(),
@@ -458,24 +464,29 @@ func inferSchemaInto(ts *schema.TypeSystem, typ reflect.Type, level int) schema.
 		}
 		typSchema := schema.SpawnStruct(name, fieldsSchema, nil)
 		ts.Accumulate(typSchema)
+		done[typ] = typSchema
 		return typSchema
 	case reflect.Slice:
 		if typ.Elem().Kind() == reflect.Uint8 {
 			// Special case for []byte.
 			return ts.TypeByName("Bytes")
 		}
+		if typSchema, ok := done[typ]; ok {
+			return typSchema
+		}
 
 		nullable := false
 		if typ.Elem().Kind() == reflect.Ptr {
 			nullable = true
 		}
-		etypSchema := inferSchemaInto(ts, typ.Elem(), level+1)
+		etypSchema := inferSchemaInto(ts, done, typ.Elem(), level+1)
 		name := typ.Name()
 		if name == "" {
 			name = "List_" + etypSchema.Name()
 		}
 		typSchema := schema.SpawnList(name, etypSchema.Name(), nullable)
 		ts.Accumulate(typSchema)
+		done[typ] = typSchema
 		return typSchema
 	case reflect.Interface:
 		// these types must match exactly since we need symmetry of being able to
